@@ -6,6 +6,7 @@ CONSTANTS
   Limits = {0, 1, 2, 3}
   Markers <- MCMarkersAt
   Export = TRUE
+  StorageSortsAll = TRUE
   CallerReverses = FALSE
 INVARIANTS TypeOK ColumnsDuring RowsIdxUnique CountBound MarkerIsKey
   FinalAligned FinalUnique FinalOrdered FinalWindow FinalLimit FinalFirst FinalHasMore FinalIsSpecOut
